@@ -320,12 +320,35 @@ impl rustc_driver::Callbacks for Cb {
         let _ = write!(out, "{{\"crate\":{},\"out_dir\":{},\"bodies\":[", esc(&krate), esc(&cx.out_dir.clone().unwrap_or_default()));
         let mut first = true;
         let mut consts = vec![];
+        let mut enums: std::collections::BTreeMap<String, String> = std::collections::BTreeMap::new();
         for ldid in tcx.mir_keys(()) {
             let did = ldid.to_def_id();
             let kind = tcx.def_kind(did);
             match kind {
                 DefKind::Fn | DefKind::AssocFn | DefKind::Closure => {
                     let body = tcx.optimized_mir(did);
+                    for d in body.local_decls.iter() {
+                        let mut t = d.ty;
+                        loop {
+                            match t.kind() {
+                                ty::Ref(_, inner, _) => { t = *inner; }
+                                _ => break,
+                            }
+                        }
+                        if let ty::Adt(adt, _) = t.kind() {
+                            if adt.is_enum() {
+                                let name = tcx.def_path_str(adt.did());
+                                if !enums.contains_key(&name) {
+                                    let mut vs = vec![];
+                                    for (vidx, discr) in adt.discriminants(tcx) {
+                                        let v = adt.variant(vidx);
+                                        vs.push(format!("{{\"name\":{},\"discr\":\"{}\",\"nfields\":{}}}", esc(&v.name.to_string()), discr.val, v.fields.len()));
+                                    }
+                                    enums.insert(name, format!("[{}]", vs.join(",")));
+                                }
+                            }
+                        }
+                    }
                     if !first { out.push(','); }
                     first = false;
                     out.push_str(&cx.body(did, body, None));
@@ -352,7 +375,8 @@ impl rustc_driver::Callbacks for Cb {
                 _ => {}
             }
         }
-        let _ = write!(out, "],\"consts\":[{}]}}", consts.join(","));
+        let es: Vec<String> = enums.iter().map(|(k, v)| format!("{}:{}", esc(k), v)).collect();
+        let _ = write!(out, "],\"consts\":[{}],\"enums\":{{{}}}}}", consts.join(","), es.join(","));
         let path = format!("{}/{}.json", outdir, krate);
         std::fs::write(&path, out).expect("write facts");
         Compilation::Continue
